@@ -13,12 +13,17 @@
 //	adv dt=<ms> [order=<tag,...>]         virtual time passes (the 1 s expiry scan runs inside);
 //	                                      `order` is appended by the harness AFTER execution: the order
 //	                                      in which the implementation (Go map iteration) ran the timeout
-//	                                      callbacks — the legitimate nondeterminism, fed to the model as its choice
+//	                                      callbacks (instance tags) and, as i<id>, which nil-callback entries it had
+//	                                      already removed before each of them — the legitimate nondeterminism,
+//	                                      fed to the model as its choice
 //
 // script item:  R request with callback | r request with nil callback | N notify
 //
 //	F request+callback whose message cannot be serialised | f same, nil callback | n notify, not serialisable
 //	R and F may be followed by "(" items ")" : what the callback does when it runs.
+//	P (inside a callback script only): the callback panics — but only when it runs as part of a timeout
+//	completion (directly or nested through an F callback): that panic is recovered by timer.Mgr; a panic
+//	under handleResponse would restart the actor (supervisor) and is outside this check.
 //
 // Observation: `<status> iss=.. cb=.. sent=.. pend=..`
 //
@@ -26,6 +31,7 @@
 //	cb   = callback invocations in order   <tag>:<class>@<t>[!ctx]   class = ok:<v> | ok:nil | rerr:<w> | err | timeout | noservice
 //	sent = what the peer received          <tag>:<reqid>:<route>
 //	pend = sorted keys of Service.Handlers at quiescence
+//	pan  = virtual times at which a script panicked during the op
 package c01
 
 import (
@@ -68,7 +74,7 @@ func parseActs(s string, i *int) []*act {
 		if ch == ')' {
 			return out
 		}
-		if !strings.ContainsRune("RrNFfn", rune(ch)) {
+		if !strings.ContainsRune("RrNFfnP", rune(ch)) {
 			*i++
 			continue
 		}
@@ -143,6 +149,9 @@ type caseCtx struct {
 	iss     []string
 	cbs     []string
 	order   []string
+	pans    []string
+	inTO    int // >0 while a timeout callback is on the stack
+	reported map[int32]bool // nil-callback ids whose removal has been put into an order annotation
 	sent    []string
 	recv    map[int]*messages.ServiceRequest
 }
@@ -187,10 +196,41 @@ func (c *caseCtx) mkcb(k int, sub []*act) as.ResCBFunc {
 		c.cbs = append(c.cbs, fmt.Sprintf("%d:%s@%d%s", k, cls, c.now(), ctx))
 		c.done[k] = true
 		if cls == "timeout" {
+			// which nil-callback entries has the scan (or a reply) removed so far and not been reported yet:
+			// they leave no other trace, and a panic now would stop the scan before the remaining ones
+			var gone []int
+			c.w.mu.Lock()
+			for tag, rq := range c.recv {
+				if c.kind[tag] != 'r' || c.reported[rq.ReqId] {
+					continue
+				}
+				if _, still := c.svc.Handlers[rq.ReqId]; !still {
+					gone = append(gone, int(rq.ReqId))
+					c.reported[rq.ReqId] = true
+				}
+			}
+			c.w.mu.Unlock()
+			sort.Ints(gone)
+			for _, id := range gone {
+				c.order = append(c.order, "i"+strconv.Itoa(id))
+			}
 			c.order = append(c.order, strconv.Itoa(k))
+		}
+		if cls == "timeout" {
+			c.inTO++
+			defer func() { c.inTO-- }()
 		}
 		c.mu.Unlock()
 		for _, a := range sub {
+			if a.kind == 'P' {
+				if c.inTO > 0 {
+					c.mu.Lock()
+					c.pans = append(c.pans, strconv.FormatInt(c.now(), 10))
+					c.mu.Unlock()
+					panic("c01: scripted callback panic")
+				}
+				continue
+			}
 			c.issue(a, "x.y")
 		}
 	}
@@ -245,8 +285,8 @@ func (c *caseCtx) observe(status string) string {
 	c.w.mu.Unlock()
 	c.mu.Lock()
 	defer c.mu.Unlock()
-	o := fmt.Sprintf("%s iss=%s cb=%s sent=%s pend=%s", status, strings.Join(c.iss, ","), strings.Join(c.cbs, ","), sent, c.pend())
-	c.iss, c.cbs = nil, nil
+	o := fmt.Sprintf("%s iss=%s cb=%s sent=%s pend=%s pan=%s", status, strings.Join(c.iss, ","), strings.Join(c.cbs, ","), sent, c.pend(), strings.Join(c.pans, ","))
+	c.iss, c.cbs, c.pans = nil, nil, nil
 	return o
 }
 
@@ -279,7 +319,7 @@ func (w *world) reset(ws []string) *caseCtx {
 		synctest.Wait()
 	}
 	w.nCase++
-	c := &caseCtx{w: w, t0: map[int]int64{}, kind: map[int]byte{}, done: map[int]bool{}, recv: map[int]*messages.ServiceRequest{}}
+	c := &caseCtx{w: w, reported: map[int32]bool{}, t0: map[int]int64{}, kind: map[int]byte{}, done: map[int]bool{}, recv: map[int]*messages.ServiceRequest{}}
 	name := fmt.Sprintf("c01req%d", w.nCase)
 	props, _ := as.NewServicePropsWithNewScheDisp(func() actor.Actor {
 		n := ns.NewService()
@@ -356,7 +396,7 @@ func (w *world) exec(op string) (string, string) {
 		s, _ := hx.KV(ws, "s")
 		i := 0
 		acts := parseActs(s, &i)
-		if len(acts) != 1 {
+		if len(acts) != 1 || acts[0].kind == 'P' {
 			return op, "bad-op"
 		}
 		c.onSvc(func() { c.issue(acts[0], "a.b") })
@@ -477,6 +517,15 @@ func (g *gen) script(depth int) string {
 	var sb strings.Builder
 	n := 1 + r.Intn(3)
 	for i := 0; i < n; i++ {
+		if r.Intn(9) == 0 {
+			// the callback panics here (takes effect on a timeout completion only)
+			g.h.Count("script.panic")
+			sb.WriteString("P")
+			if r.Intn(2) == 0 {
+				break
+			}
+			continue
+		}
 		sb.WriteString(g.act(depth))
 	}
 	return sb.String()
@@ -489,6 +538,10 @@ func (g *gen) act(depth int) string {
 		if depth < 2 && r.Intn(4) == 0 {
 			g.h.Count("script.nested")
 			return "R(" + g.script(depth+1) + ")"
+		}
+		if depth == 0 && r.Intn(8) == 0 {
+			g.h.Count("script.panic")
+			return []string{"R(P)", "R(RP)", "R(F(P)R)", "R(NPR)"}[r.Intn(4)]
 		}
 		return "R"
 	case x < 12:
@@ -689,6 +742,12 @@ func countObs(h *hx.T, op, obs string) {
 	} else if strings.HasPrefix(op, "deliver") && strings.HasPrefix(obs, "ok ") {
 		h.Count("seen.deliver.no-callback(late/dup/notify/nilcb)")
 	}
+	if p, _ := hx.KV(ws, "pan"); p != "" {
+		h.Count("seen.scan.callback-panicked")
+		if strings.Count(cb, "timeout") >= 2 {
+			h.Count("seen.scan.panic-with-several-due")
+		}
+	}
 	if p, _ := hx.KV(ws, "pend"); p != "" {
 		n := strings.Count(p, ",") + 1
 		switch {
@@ -774,7 +833,7 @@ func TestEnum(t *testing.T) {
 	synctest.Test(t, func(t *testing.T) {
 		h := hx.Open()
 		w := newWorld()
-		alpha := []string{"req s=R", "req s=r", "req s=F(R)", "req s=N", "deliver k=0 kind=ok w=7", "deliver k=1 kind=err w=8",
+		alpha := []string{"req s=R(P)", "req s=r", "req s=F(R)", "req s=R(N)", "deliver k=0 kind=ok w=7", "deliver k=1 kind=err w=8",
 			"deliver k=0 kind=bad w=0", "inject id=2 kind=nil w=0", "adv dt=15500", "adv dt=15501"}
 		L := hx.EnvInt("VERIF_ENUM_LEN", 4)
 		idx := make([]int, L)
